@@ -247,8 +247,15 @@ func checkC01(c *Ctx) {
 		ast.Inspect(decl.Body, func(n ast.Node) bool {
 			switch x := n.(type) {
 			case *ast.KeyValueExpr:
-				if hint == "hasBody" && types.ExprString(x.Key) == "hasBody" {
-					out = c.P.ConstCompareSet(finfo, x.Value)
+				// the boolean field of the method configuration that is computed from the verb (hasBody, whatever its name)
+				if hint == "hasBody" {
+					if t := finfo.TypeOf(x.Value); t != nil {
+						if b, ok := t.Underlying().(*types.Basic); ok && b.Kind() == types.Bool {
+							if vs := c.P.ConstCompareSet(finfo, x.Value); len(vs) > 0 {
+								out = vs
+							}
+						}
+					}
 				}
 			case *ast.IfStmt:
 				if hint != "hasBody" && out == nil {
